@@ -388,10 +388,26 @@ class Interp:
         self.assign(t, v, module, env, depth)
     elif isinstance(target, ast.Subscript):
       base = self.eval(target.value, module, env, depth)
+      if isinstance(target.slice, ast.Slice):
+        sl = target.slice
+        lo = self.eval(sl.lower, module, env, depth) if sl.lower else None
+        hi = self.eval(sl.upper, module, env, depth) if sl.upper else None
+        stp = self.eval(sl.step, module, env, depth) if sl.step else None
+        if isinstance(base, list):
+          if any(isinstance(x, Opaque) for x in (lo, hi, stp)) or isinstance(value, Opaque):
+            raise NotInterpretable(f'slice store {ast.unparse(target)} with unknown bounds/value')
+          base[lo:hi:stp] = list(value)
+        elif not isinstance(base, Opaque):
+          raise NotInterpretable(f'slice store into {type(base).__name__}')
+        return
       key = self.eval(target.slice, module, env, depth)
-      if isinstance(base, dict) and not isinstance(key, Opaque):
+      if isinstance(base, dict):
+        if isinstance(key, Opaque):
+          raise NotInterpretable(f'store {ast.unparse(target)} with unknown key into a known dict')
         base[key] = value
-      elif isinstance(base, list) and isinstance(key, int):
+      elif isinstance(base, list):
+        if not isinstance(key, int):
+          raise NotInterpretable(f'store {ast.unparse(target)} with unknown index into a known list')
         try:
           base[key] = value
         except IndexError:
